@@ -14,7 +14,7 @@ TRUSTED_BASE = [
 ]
 ASSUMPTIONS = ["a duplicated ack frame may legitimately be re-parsed; 'no effect' is judged on everything the sender emits and reports afterwards (frames, rtt_s, send rate, counters)"]
 RULE = ("twin runs: a baseline two-endpoint scenario and a copy that differs only by injected acknowledgements at one endpoint — replays of ack frames already "
-        "delivered (immediately or much later), ack groups naming logged frames with the wrong nonce parity, groups naming unknown/forgotten/future frame ids; "
+        "delivered (immediately or much later), ack groups naming logged frames with the wrong nonce parity, groups naming unknown/forgotten/future frame ids, groups starting inside the log and reaching past the newest sent frame (both nonce bits); "
         "every output of the victim after the first injection (frames, counters, rtt bits, send rate) must coincide with the baseline. Non-trivial: at least one "
         "injected ack frame parsed and the victim had unacknowledged frames. Distinct by (injection kinds, windows, volume). Second stream `overlap`: crafted groups fresh for an old frame and repeating a newer one; oracle rtt_sample (smoothed RTT = RFC 5348 average of the exact samples of the newest newly acknowledged frame).")
 
@@ -42,7 +42,7 @@ def build(rng, it, codec, idx, tier):
         # choose an injection for endpoint A (the sender under test)
         inj = None
         ackframes = [f for f in sim.frames["B"] if f["kind"] == "A" and ("B", f["idx"]) in sim.arrived]
-        how = r.weighted([("replay", 4), ("badnonce", 4), ("unknown", 3), ("oldreplay", 2)])
+        how = r.weighted([("replay", 4), ("badnonce", 4), ("unknown", 3), ("oldreplay", 2), ("straddle_next", 3)])
         if how in ("replay", "oldreplay") and ackframes:
             f = ackframes[0] if how == "oldreplay" else r.pick(ackframes[-3:])
             inj = "fwd B %d A" % f["idx"]
@@ -69,6 +69,22 @@ def build(rng, it, codec, idx, tier):
                 bits = r.pick([1, 3, 5, 7, 0x80000001, 0xFF])
                 txt = "ack %s %s 2 %d %d 0 %d %d 1" % (p["fq"][0], p["ps"][0], base, bits, base, bits)
                 inj = "A raw " + codec.op("enc " + txt)
+        elif how == "straddle_next":
+            # a group that starts at a frame still in the log and reaches past the newest frame sent: it names frames that were
+            # never sent, so it must be rejected as a whole - with either nonce bit, i.e. also when the nonce happens to be the
+            # parity of the sent frames it covers (round-7 change C15-g)
+            p = sim.probe("A")
+            if p:
+                nxt = int(p["fq"][2]); lb = int(p["fq"][1])
+                inlog = (nxt - lb) & U32
+                if inlog >= 1:
+                    d = r.range(1, min(inlog, 6))
+                    base = (nxt - d) & U32
+                    low = r.range(1, (1 << d) - 1) if d > 1 else 1           # at least one sent frame claimed
+                    high = r.pick([1, 3, 5]) << d                             # and at least one frame that was never sent
+                    bits = (low | high) & 0xFFFFFFFF
+                    txt = "ack %s %s 2 %d %d 0 %d %d 1" % (p["fq"][0], p["ps"][0], base, bits, base, bits)
+                    inj = "A raw " + codec.op("enc " + txt)
         if inj:
             marks.append((len(sim.ops), inj)); kinds.append(how)
     H.finish(sim, drain=False)
